@@ -108,7 +108,16 @@ class C16(Property):
         method = "nearest" if i % 2 == 0 else "linear"
         dim = rnd.choice([1, 2, 2, 2, 3])
         src = rand_grid(rnd, dim)
-        if rnd.random() < 0.2 and method == "nearest" and src["kind"] == "struct" and src["spec"]["cls"] != "esri":
+        if method == "nearest" and rnd.random() < 0.06:
+            # fine-to-coarse: several hundred source locations (more than fit a byte index), few targets
+            dim = 2
+            if rnd.random() < 0.5:
+                sp = mg.random_structured_spec(rnd, dim=2, classes=("uniform", "rect"), lens=(17, 19, 23))
+                src = dict(kind="struct", spec=sp, dim=2, via_location_change=False)
+            else:
+                src = dict(kind="upoints", dim=2, n=rnd.randint(280, 420), order=rnd.choice("CF"))
+            src["large"] = True
+        if rnd.random() < 0.2 and method == "nearest" and not src.get("large") and src["kind"] == "struct" and src["spec"]["cls"] != "esri":
             lay = rnd.choice(list(mg.layouts(len(src["spec"]["dims"]))))
             tgt = dict(kind="struct", spec=dict(src["spec"], **lay), dim=src["dim"])
             same = True
@@ -131,6 +140,8 @@ class C16(Property):
         gs, cs, sshape, sorder = make(spec["src"], spec["seed"])
         gt, ct, tshape, torder = make(spec["tgt"], spec["seed"] + 1)
         dim = spec["src"]["dim"]
+        if spec["src"].get("large"):
+            out.count("sources_with_more_than_256_locations")
         ns, nt = int(np.prod(sshape)), int(np.prod(tshape))
         cs2, ct2 = cs.reshape(ns, dim), ct.reshape(nt, dim)  # C-order flattening of the data shape (oracle's own convention)
         # masks in data shape
@@ -306,7 +317,7 @@ class C16(Property):
     def coverage_gaps(self, counters, tier):
         need = ["method_nearest", "method_linear", "target_elements_checked", "identity_between_layouts_checked", "inside_hull_checked",
                 "outside_hull_masked_checked", "outside_hull_filled_checked", "poison_runs", "grids_with_changed_data_location", "undeclared_masked_data_refused", "dim_1", "dim_2", "dim_3",
-                "src_struct_uniform", "src_struct_rect", "src_struct_esri", "src_upoints", "src_ucells", "src_ucells_mixed", "tgt_struct_uniform", "tgt_upoints", "tgt_ucells"]
+                "sources_with_more_than_256_locations", "src_struct_uniform", "src_struct_rect", "src_struct_esri", "src_upoints", "src_ucells", "src_ucells_mixed", "tgt_struct_uniform", "tgt_upoints", "tgt_ucells"]
         return [f"{k} never observed" for k in need if not counters.get(k)]
 
 
